@@ -33,7 +33,7 @@ Init == l = 1 /\ c = Empty /\ rc = Empty /\ sem = <<>> /\ f0 = -1 /\ viol = <<>>
    of quizx (fix: /verif/work/gB_fix_1.diff).  Until that fix is applied the unchanged tree would alarm, therefore the
    check of `+=` (predicate AddAssignChecked, tags pred=AddAssignChecked op=concat_mismatch) is OFF and the occurrences are
    only counted (stats.addassign_mismatch_silent).  To turn it on after the fix: set CheckAddAssignMismatch == TRUE. *)
-CheckAddAssignMismatch == FALSE
+CheckAddAssignMismatch == TRUE
 
 IsUnitary(cc) == \A i \in 1..Len(cc.gates) : cc.gates[i].t \notin {"InitAncilla", "PostSelect", "Measure", "MeasureReset"}
 HasUnknown(cc) == \E i \in 1..Len(cc.gates) : cc.gates[i].t = "UnknownGate"
